@@ -220,7 +220,9 @@ func (g *c02Gen) block(f *C02Flow, budget *int) string {
 		defer g.push("table")()
 		var b strings.Builder
 		b.WriteString(`<table style="` + g.boxStyle() + `;border-spacing:` + rapid.SampledFrom([]string{"0", "2px"}).Draw(t, "bsp") + `">`)
+		hasHead := false
 		if rapid.IntRange(0, 2).Draw(t, "thead") == 0 {
+			hasHead = true
 			h := g.newFlow(true)
 			g.inRepeat = true
 			b.WriteString("<thead><tr><th>" + g.inline(h, 2) + "</th></tr></thead>")
@@ -239,7 +241,7 @@ func (g *c02Gen) block(f *C02Flow, budget *int) string {
 		extraGroup := ""
 		if rapid.IntRange(0, 5).Draw(t, "extragroup") == 0 {
 			tag := rapid.SampledFrom([]string{"thead", "tfoot"}).Draw(t, "extratag")
-			if (tag == "thead" && g.feat["table-header"]) || (tag == "tfoot" && foot != "") {
+			if (tag == "thead" && hasHead) || (tag == "tfoot" && foot != "") { // (of this table)
 				ef := g.newFlow(false)
 				pop := g.push("table")
 				extraGroup = "<" + tag + "><tr><td>" + g.inline(ef, 2) + "</td></tr></" + tag + ">"
